@@ -1,6 +1,158 @@
-(* C31 placeholder while the proofs are being written *)
-From BT Require Import Base.ListX L2cap.L2capModel L2cap.L2capSpec.
-From BT Require gen.GenL2cap.
+(* C31  L2CAP channel multiplexing and signaling are well behaved.  Statements only; proofs in
+   L2cap/L2capProofs.v.  The model (L2cap/L2capModel.v) transcribes bluetoe/l2cap.hpp and
+   l2cap_signaling_channel.hpp after the repair fix/C31-signaling-response-match. *)
+From BT Require Import Base.ListX L2cap.L2capModel L2cap.L2capSpec L2cap.L2capProofs.
 Local Open Scope N_scope.
-Example C31_constants : GenL2cap.l2cap_layer_header_size = hdr.
-Proof. reflexivity. Qed.
+
+(* The full statement: for every well-formed configuration (any list of channels with distinct 16 bit
+   CIDs, with or without the signaling channel, any number of link layer buffers) and every history of
+   L2CAP frames (any bytes, any length), connection parameter update requests, output polls and buffer
+   releases, of any length, the specification monitor accepts the trace:
+     deliver_cid / deliver_len / unknown_dropped / consumed
+        a frame is handed to exactly the channel its CID names, with exactly its payload, iff it has the
+        4 byte header, its length field equals its payload length and the link layer has an output
+        buffer (otherwise it is refused unconsumed, or dropped);
+     reply_cid / reply_fits
+        a reply carries the request's CID, asynchronous frames carry a configured CID, every committed
+        frame has a correct length field, fits maximum_mtu_size + 4, never more frames than buffers,
+        and nothing faults;
+     sig_once / sig_match / sig_id_nonzero / sig_id_advances / sig_reject
+        a request is accepted iff none is queued or outstanding, transmitted exactly once by the next
+        poll that has a buffer, with a non-zero identifier that is the successor (skipping 0) of the
+        previous request's; only a response with that identifier, 6 bytes and length field 2 completes
+        it, responses are never answered; every other command is answered with Command Reject echoing
+        its non-zero identifier, commands with identifier 0 or shorter than 2 bytes with silence. *)
+Theorem C31_l2cap_well_behaved :
+  forall (c : cfg) (ops : list op), wf c -> monitor c (run c (init c) ops) = None.
+Proof. exact monitor_accepts. Qed.
+Print Assumptions C31_l2cap_well_behaved.
+
+(* memory safety: no operation of any history ends in an access outside the allocated buffer
+   (channel writes at offset 4, header at 0..3, commit of out_size + 4 bytes) or in a failing assert *)
+Theorem C31_never_faults :
+  forall (c : cfg) (ops : list op) (o : op) (r : out),
+    wf c -> List.In (o, r) (run c (init c) ops) -> r <> OFault.
+Proof. exact never_faults. Qed.
+Print Assumptions C31_never_faults.
+
+(* the signaling channel on its own (any state with an outstanding request, any PDU, any buffer):
+   exactly the matching responses complete the request and advance the identifier *)
+Theorem C31_only_matching_response_completes :
+  forall (ss : sigst) (input buf : list N) (osz : N),
+    pend ss = Transmitted -> 6 <= osz -> (N.to_nat osz + 4 <= length buf)%nat ->
+    exists ss' b o, sig_input ss input buf (N.to_nat hdr) osz = CRes (SSig ss') b o /\
+      if (first_byte input =? code_cpu_rsp) && matching_response (ident ss) input
+      then pend ss' = Idle /\ ident ss' = succ_id (ident ss) /\ o = 0
+      else ss' = ss.
+Proof. exact sig_response_exact. Qed.
+Print Assumptions C31_only_matching_response_completes.
+
+Theorem C31_request_transmitted_once :
+  forall (ss : sigst) (buf : list N) (osz : N),
+    12 <= osz -> (N.to_nat osz + 4 <= length buf)%nat ->
+    exists ss' b o, sig_output ss buf (N.to_nat hdr) osz = CRes (SSig ss') b o /\
+      match pend ss with
+      | Queued => pend ss' = Transmitted /\ ident ss' = ident ss /\ o = 12 /\
+                  firstn 12 (skipn 4 b) = [code_cpu_req; ident ss; 8; 0] ++ param_bytes (p_imin ss) (p_imax ss) (p_lat ss) (p_tmo ss)
+      | _ => ss' = ss /\ o = 0 /\ b = buf
+      end.
+Proof. exact sig_output_once. Qed.
+Print Assumptions C31_request_transmitted_once.
+
+Theorem C31_identifier_successor_nonzero : forall i : N, 0 < succ_id i < 256.
+Proof. exact succ_id_range. Qed.
+Print Assumptions C31_identifier_successor_nonzero.
+
+(* ---- non-vacuity *)
+Definition cfg1 : cfg := mkcfg [mkchan KEcho 4 23; sig_chan; mkchan KAsync 6 40] 3.
+Definition cfgE : cfg := mkcfg [mkchan KEcho 4 23; sig_chan] 2.
+
+Example C31_wf_satisfiable : wf cfg1 /\ wf cfgE /\ wf (mkcfg [mkchan KSilent 4 0] 1).
+Proof. repeat split; apply wfb_sound; vm_compute; reflexivity. Qed.
+
+(* what the model does on a concrete history: echo reply, truncation to maximum_mtu_size is not needed
+   here, Command Reject, request / wrong response / matching response / next identifier, asynchronous output *)
+Example C31_model_run :
+  run cfg1 (init cfg1)
+    [In [2; 0; 4; 0; 7; 8]; In [2; 0; 5; 0; 20; 9]; Req 6 12 0 100; Req 1 1 1 1; Poll;
+     In [6; 0; 5; 0; 19; 2; 2; 0; 0; 0]; Req 1 1 1 1; Free 3; In [6; 0; 5; 0; 19; 1; 2; 0; 0; 0]; Req 7 7 7 7;
+     In [1; 0; 6; 0; 55]; Poll; In [1; 0; 9; 0; 1]; In [3; 0; 4; 0; 1]; In [1; 0; 4]] =
+    [(In [2; 0; 4; 0; 7; 8], OIn true [(4, [7; 8])] [[2; 0; 4; 0; 7; 8]]);
+     (In [2; 0; 5; 0; 20; 9], OIn true [(5, [20; 9])] [[6; 0; 5; 0; 1; 9; 2; 0; 0; 0]]);
+     (Req 6 12 0 100, OReq true); (Req 1 1 1 1, OReq false);
+     (Poll, OPoll [[12; 0; 5; 0; 18; 1; 8; 0; 6; 0; 12; 0; 0; 0; 100; 0]]);
+     (In [6; 0; 5; 0; 19; 2; 2; 0; 0; 0], OIn false [] []);
+     (Req 1 1 1 1, OReq false); (Free 3, OFree 3);
+     (In [6; 0; 5; 0; 19; 1; 2; 0; 0; 0], OIn true [(5, [19; 1; 2; 0; 0; 0])] []);
+     (Req 7 7 7 7, OReq true);
+     (In [1; 0; 6; 0; 55], OIn true [(6, [55])] []);
+     (Poll, OPoll [[12; 0; 5; 0; 18; 2; 8; 0; 7; 0; 7; 0; 7; 0; 7; 0]; [1; 0; 6; 0; 55]]);
+     (In [1; 0; 9; 0; 1], OIn true [] []); (In [3; 0; 4; 0; 1], OIn true [] []); (In [1; 0; 4], OIn true [] [])].
+Proof. vm_compute. reflexivity. Qed.
+
+Example C31_identifier_wraps_past_zero : succ_id 254 = 255 /\ succ_id 255 = 1 /\ next_ident 255 = 1 /\ succ_id 1 = 2.
+Proof. vm_compute. repeat split; reflexivity. Qed.
+
+(* the monitor is not trivially accepting: one rejected trace per clause.
+   sig_match is the behaviour of the code before the repair (witness corpus/C31/witnesses.trace, replayed
+   on the implementation): a one byte 0x13 PDU completed the outstanding request *)
+Definition reqf (i : N) : list N := [12; 0; 5; 0; 18; i; 8; 0; 6; 0; 12; 0; 0; 0; 100; 0].
+Example C31_monitor_rejects_unmatched_response_completing :
+  monitor cfgE [(Req 6 12 0 100, OReq true); (Poll, OPoll [reqf 1]);
+                (In [1; 0; 5; 0; 19], OIn true [(5, [19])] []); (Req 6 12 0 100, OReq true)]
+  = Some (3%nat, t_sig_match).
+Proof. vm_compute. reflexivity. Qed.
+Example C31_monitor_rejects_wrong_channel :
+  monitor cfgE [(In [1; 0; 4; 0; 7], OIn true [(5, [7])] [])] = Some (0%nat, t_deliver_cid).
+Proof. vm_compute. reflexivity. Qed.
+Example C31_monitor_rejects_length_mismatch_delivered :
+  monitor cfgE [(In [2; 0; 4; 0; 7], OIn true [(4, [7])] [])] = Some (0%nat, t_deliver_len).
+Proof. vm_compute. reflexivity. Qed.
+Example C31_monitor_rejects_refusal_with_free_buffer :
+  monitor cfgE [(In [1; 0; 4; 0; 7], OIn false [] [])] = Some (0%nat, t_consumed).
+Proof. vm_compute. reflexivity. Qed.
+Example C31_monitor_rejects_reply_on_other_cid :
+  monitor cfgE [(In [1; 0; 4; 0; 7], OIn true [(4, [7])] [[1; 0; 5; 0; 7]])] = Some (0%nat, t_reply_cid).
+Proof. vm_compute. reflexivity. Qed.
+Example C31_monitor_rejects_oversized_reply :
+  monitor cfgE [(In [1; 0; 4; 0; 7], OIn true [(4, [7])] [[24; 0; 4; 0] ++ repeat 7 24])] = Some (0%nat, t_reply_fits)
+  /\ monitor cfgE [(In [1; 0; 4; 0; 7], OFault)] = Some (0%nat, t_reply_fits)
+  /\ monitor cfgE [(Poll, OFault)] = Some (0%nat, t_reply_fits).
+Proof. vm_compute. repeat split; reflexivity. Qed.
+Example C31_monitor_rejects_unknown_cid_delivered :
+  monitor cfgE [(In [1; 0; 9; 0; 7], OIn true [(9, [7])] [])] = Some (0%nat, t_unknown_dropped).
+Proof. vm_compute. reflexivity. Qed.
+Example C31_monitor_rejects_second_request_and_retransmission :
+  monitor cfgE [(Req 6 12 0 100, OReq true); (Req 6 12 0 100, OReq true)] = Some (1%nat, t_sig_once)
+  /\ monitor cfgE [(Req 6 12 0 100, OReq true); (Poll, OPoll [reqf 1]); (Poll, OPoll [reqf 1])] = Some (2%nat, t_sig_once)
+  /\ monitor cfgE [(Req 6 12 0 100, OReq true); (Poll, OPoll [])] = Some (1%nat, t_sig_once).
+Proof. vm_compute. repeat split; reflexivity. Qed.
+Example C31_monitor_rejects_identifier_zero :
+  monitor cfgE [(Req 6 12 0 100, OReq true); (Poll, OPoll [reqf 0])] = Some (1%nat, t_sig_id_nonzero).
+Proof. vm_compute. reflexivity. Qed.
+Example C31_monitor_rejects_identifier_not_advancing :
+  monitor cfgE [(Req 6 12 0 100, OReq true); (Poll, OPoll [reqf 1]);
+                (In [6; 0; 5; 0; 19; 1; 2; 0; 0; 0], OIn true [(5, [19; 1; 2; 0; 0; 0])] []);
+                (Free 1, OFree 2); (Req 6 12 0 100, OReq true); (Poll, OPoll [reqf 1])]
+  = Some (5%nat, t_sig_id_advances).
+Proof. vm_compute. reflexivity. Qed.
+Example C31_monitor_rejects_missing_or_zero_reject :
+  monitor cfgE [(In [2; 0; 5; 0; 20; 7], OIn true [(5, [20; 7])] [])] = Some (0%nat, t_sig_reject)
+  /\ monitor cfgE [(In [2; 0; 5; 0; 20; 7], OIn true [(5, [20; 7])] [[6; 0; 5; 0; 1; 0; 2; 0; 0; 0]])] = Some (0%nat, t_sig_reject)
+  /\ monitor cfgE [(In [2; 0; 5; 0; 20; 0], OIn true [(5, [20; 0])] [[6; 0; 5; 0; 1; 0; 2; 0; 0; 0]])] = Some (0%nat, t_sig_reject).
+Proof. vm_compute. repeat split; reflexivity. Qed.
+
+(* constants regenerated from l2cap.hpp / l2cap_channels.hpp / l2cap_signaling_channel.hpp / codes.hpp on
+   every run, pinned to the values the model uses (response_pdu_size / response_data_length exist only
+   in a tree that contains the repair) *)
+From BT Require gen.GenL2cap.
+Example C31_constants_are_the_codes :
+  GenL2cap.l2cap_layer_header_size = hdr /\ GenL2cap.cid_att = cid_att /\ GenL2cap.cid_signaling = cid_sig /\
+  GenL2cap.cid_sm = cid_sm /\ GenL2cap.command_reject_code = code_reject /\
+  GenL2cap.connection_parameter_update_request_code = code_cpu_req /\
+  GenL2cap.connection_parameter_update_response_code = code_cpu_rsp /\
+  GenL2cap.invalid_identifier = 0 /\ GenL2cap.default_att_mtu_size = sig_mtu /\
+  GenL2cap.request_pdu_size = req_pdu_size /\ GenL2cap.reject_pdu_size = rej_pdu_size /\
+  GenL2cap.initial_identifier = 1 /\ GenL2cap.alloc_calls_with_maximum_mtu_size = 2 /\
+  GenL2cap.response_pdu_size = Some rsp_pdu_size /\ GenL2cap.response_data_length = Some rsp_data_len.
+Proof. repeat split; reflexivity. Qed.
